@@ -36,7 +36,7 @@ for sid in sorted(os.listdir(os.path.join(V, "seeded")), key=lambda x: (x.split(
     else:
         undecided.append(f"* {sid} - {head}: the check of {m_['property']} passes; {msg or 'checks of other properties report it (see the last column)'}")
 out = ["## 11. Seeded changes written by independent sub-agents, and which rules catch them", "",
-       "Each change was written by a fresh sub-agent that saw only the text of one property and a scratch worktree of /repo (nothing from /verif), in eleven rounds (the last one for eight properties) "
+       "Each change was written by a fresh sub-agent that saw only the text of one property and a scratch worktree of /repo (nothing from /verif), in eleven rounds "
        "(each later round was told which ideas the earlier rounds had used and asked for different ones; `tools/prep_round.py` prepares the worktrees). Every change kept here was confirmed by `tools/verify_seed.py` in the scratch "
        "worktree: the patch applies to /repo's HEAD of that time, the 30 baseline tests still pass, and the demonstration fails with the change and passes without it on at least one of "
        "the interpreters 3.7-3.10 (3.12 for the JSON-only ones). `tools/seeded.py` applies each patch to a scratch copy (never to /repo) and runs the quick check of the "
@@ -46,7 +46,7 @@ out = ["## 11. Seeded changes written by independent sub-agents, and which rules
        "the others are listed below, none passes every check silently. "
        "History of first evaluations (before the rule work each round caused): round 1 - 16 of 36 caught by their own check (30 of 45 by some check); round 2 - 11 of 30; round 3 - 14 of 48 "
        "(22 by some check, 8 more at exit 2); round 4 - 12 of 48 (30 by some check, 7 more at exit 2); round 5 - 21 of 48; round 6 - 15 of 48; round 7 - 27 of 48; round 8 - 20 of 48 "
-       "(9 by no check); round 9 - 29 of 48 (2 by no check); round 10 - 36 of 48 (6 by no check); round 11 - 13 of 24 (4 by no check). The misses drove most of the rule additions listed in section 0a. "
+       "(9 by no check); round 9 - 29 of 48 (2 by no check); round 10 - 36 of 48 (6 by no check); round 11 - 28 of 48 (8 by no check). The misses drove most of the rule additions listed in section 0a. "
        "Not decided by the check of their own property, at the last recorded run:", ""] + undecided + ["",
        "(Exit 2 from a rejection-path rule is by design: a new `raise` on input the compiler can produce is 'not decided', because whether valid input reaches it needs more than the shape of the code. "
        "C13-23, C13-29 and C13-30 change normalize() / the JSON loader, whose results C13 - a statement about decoded data - does not cover; C05, C06 and others report them.)", "",
